@@ -13,6 +13,7 @@
 //!  * position identity = placement, side to move, castling rights, e.p. file.
 
 pub mod json;
+pub mod report;
 pub mod rng;
 pub mod tags;
 
